@@ -11,6 +11,7 @@ H(a, c) == hist' = Append(hist, Rec(a, c))
 GInit == Init /\ hist = <<>>
 GNext == \/ \E c \in Callers :
              \/ Register(c) /\ H("Register", c)
+             \/ Collide(c) /\ H("Collide", c)
              \/ SendOk(c) /\ H("SendOk", c)
              \/ SendFail(c) /\ H("SendFail", c)
              \/ SendStall(c) /\ H("SendStall", c)
